@@ -293,10 +293,12 @@ func (x *Exec) lookup(st *State, in *ssa.Lookup) Val {
 }
 
 func (x *Exec) slice(st *State, in *ssa.Slice) Val {
-	if in.Max != nil {
-		x.unsupported(st, in.Pos(), "3-index slice")
-	}
 	xv := x.eval(st, in.X)
+	if in.Max != nil {
+		if _, ok := xv.(*Owned); ok {
+			x.unsupported(st, in.Pos(), "3-index slice of a freshly made slice")
+		}
+	}
 	var lo, hi *Term
 	if in.Low != nil {
 		lo = x.term(st, x.eval(st, in.Low), in.Pos())
@@ -359,7 +361,15 @@ func (x *Exec) slice(st *State, in *ssa.Slice) Val {
 		return mkT("Str", App("Str", "ssub", base, lo, hi).S, in.Type())
 	}
 	res := mkT(base.Sort, App(base.Sort, "sub_"+seqElem(base.Sort), base, lo, hi).S, in.Type())
-	if _, isSlice := in.X.Type().Underlying().(*types.Slice); isSlice && in.High != nil {
+	capped := false
+	if in.Max != nil {
+		// x[lo:hi:max]: max is checked against len (<= cap): stricter than Go, never laxer. With max == hi the result has no
+		// spare capacity, so an append to it always copies: it is a value of its own, not a view
+		mx := x.term(st, x.eval(st, in.Max), in.Pos())
+		x.oblige(st, "safety", "slice-bounds", And(Le(hi, mx), Le(mx, n)), in.Pos())
+		capped = mx.S == hi.S
+	}
+	if _, isSlice := in.X.Type().Underlying().(*types.Slice); isSlice && in.High != nil && !capped {
 		// a view that stops before the end of the original: appending to it would overwrite the original's elements
 		if st.views == nil {
 			st.views = map[string]bool{}
